@@ -142,6 +142,9 @@ def _mc_roundtrip():
 
 
 LEMMAS = c07_handlers.LEMMAS + [Lemma("mc3-roundtrip", _mc_roundtrip, "render_mc3 output satisfies parse_mc3's precondition and decodes to the same rounds")]
+from contracts import misc_quick as _mq  # noqa: E402
+
+CONTRACTS += [_mq.sun_to_string]
 BOUNDED = [Bounded("c07", "harness/c07.py", descr="parse/render round trips of every hasher; libpass inspect/PHC", timeout=900)]
 
 MUTANTS = [
